@@ -389,7 +389,7 @@ func propC19(c *Ctx) {
 	defer func() {
 		rcv := c.Rule("call-vm", "every Call value built by a method of VM or Invoker carries the VM (builtins and stdlib functions run script callbacks on it and poll it for Abort)", 3)
 		ruleCallVM(c, rcv)
-		rie := c.Rule("invoke-err", "the error result of every Invoker.Invoke in the library is stored, returned or passed on (a failing script callback makes the library function return that error, not a value)", 4)
+		rie := c.Rule("invoke-err", "the error result of every Invoker.Invoke in the library is stored, returned or passed on (a failing script callback makes the library function return that error, not a value)", 2)
 		ruleInvokeErr(c, rie)
 		ria := c.Rule("invoker-assert", "every unchecked assertion in the methods of Invoker is covered by the cached-assertion flag set when the Invoker was built (library functions pass any callable, also without a VM)", 1)
 		ruleInvokerAssert(c, ria)
@@ -769,7 +769,7 @@ func loadsStoredValue(v ssa.Value, val ssa.Value) bool {
 		return false
 	}
 	for _, r := range *refs {
-		if st, ok := r.(*ssa.Store); ok && st.Val == val && st.Addr == u.X {
+		if st, ok := r.(*ssa.Store); ok && st.Val == val && (st.Addr == u.X || exprEq(st.Addr, u.X)) {
 			// no other store to the address between the store and the load in straight-line code
 			if st.Block() == u.Block() || st.Block().Dominates(u.Block()) {
 				return true
